@@ -4,6 +4,7 @@ package main
 // that exactly one runs at a time; the scheduler's choices are decision points of the exploration.
 
 import (
+	"os"
 	"fmt"
 	"runtime/debug"
 	"go/types"
@@ -31,6 +32,7 @@ type Goroutine struct {
 	timerOnly bool      // blocked only on timers
 	daemon  bool
 	quiescing bool
+	dormant bool
 	fr      *frame
 	where   string
 	creator int
@@ -47,6 +49,7 @@ type Sched struct {
 	verdict  string
 	note     string
 	preempts int
+	recursionPts int
 	points   int
 	trace    []string
 	mu       sync.Mutex
@@ -258,6 +261,15 @@ func (s *Sched) scheduleNext(g *Goroutine, exiting bool) {
 		// g itself is blocked: it is in cands only if its ready() is true
 	}
 	if len(cands) == 0 {
+		// a parked environment action happens now at the latest
+		for _, x := range s.gs {
+			if x.dormant && x.status == gBlocked {
+				x.dormant = false
+				s.logTrace(x, "dormant action released (nothing else can run)")
+				s.scheduleNext(g, exiting)
+				return
+			}
+		}
 		// nothing can run: time passes. One armed timer that somebody waits for expires (all choices
 		// explored under SchedAll), and scheduling resumes.
 		if ts := e.waitedTimers(); len(ts) > 0 {
@@ -392,6 +404,44 @@ func (c *RunConfig) maxSchedPoints() int {
 		return c.MaxSchedPoints
 	}
 	return 5000
+}
+
+// recursionPoint: a goroutine is about to take a read lock it already holds. Up to two such points per
+// path offer the choice of letting another goroutine run first (not counted against the preemption
+// bound: the point does not exist in code that never locks recursively).
+func (e *Exec) recursionPoint(g *Goroutine, what string) {
+	if e.summaryDepth > 0 {
+		return
+	}
+	s := e.sched
+	if s.recursionPts >= 2 {
+		return
+	}
+	others := s.enabled(g)
+	for _, x := range s.gs {
+		if x.dormant && x.status == gBlocked {
+			others = append(others, x)
+		}
+	}
+	if len(others) == 0 {
+		return
+	}
+	s.recursionPts++
+	c := e.choose(len(others)+1, "preempt at "+what)
+	if os.Getenv("VERIF_DBG") != "" {
+		names := ""
+		for _, o := range others {
+			names += fmt.Sprintf(" g%d(%s,%d,%s)", o.id, o.name, o.status, o.what)
+		}
+		fmt.Fprintf(os.Stderr, "DBG recursion point %d in g%d: choice %d of%s\n", s.recursionPts, g.id, c, names)
+	}
+	if c == 0 {
+		return
+	}
+	g.status = gRunnable
+	s.logTrace(g, "preempted at "+what)
+	others[c-1].dormant = false
+	s.switchTo(g, others[c-1], false)
 }
 
 // yieldPoint is an explicit yield (verifYield): other runnable goroutines may run, without
@@ -756,9 +806,11 @@ func (e *Exec) selectOp(fr *frame, instr *ssa.Select) Value {
 // ---- mutexes (sync.Mutex / sync.RWMutex state lives in the engine, keyed by object+path) ----
 
 type mutexState struct {
-	writer  *Goroutine
-	readers int
-	name    string
+	writer      *Goroutine
+	readers     int
+	pending     int // writers waiting in Lock
+	readHolders map[*Goroutine]int
+	name        string
 }
 
 func (e *Exec) mutexOf(p Ptr) *mutexState {
